@@ -156,7 +156,8 @@ func scenarios(o *common.Opts) []*callsim.Scenario {
 		var calls []callsim.CallSpec
 		for w := 0; w < 2; w++ {
 			for c := 0; c < n; c++ {
-				cs := callsim.CallSpec{Wave: w, Timeout: "proxy", MustOK: true, DelayMs: rnd(20)}
+				// the callers are spread over 1-3 ServantProxy objects that share the adapters
+				cs := callsim.CallSpec{Wave: w, Timeout: "proxy", MustOK: true, DelayMs: rnd(20), Proxy: c % (1 + k%3)}
 				if rnd(11) == 0 {
 					cs.Oneway, cs.MustOK = true, false
 				}
@@ -178,7 +179,7 @@ func scenarios(o *common.Opts) []*callsim.Scenario {
 			mid = i32(-int32(n))
 		}
 		add(&callsim.Scenario{Name: fmt.Sprintf("storm-%d-%d", n, k), Class: fmt.Sprintf("storm-%d", n), Client: healthy, MsgID0: mid,
-			Servers: []callsim.ServerSpec{mk(), mk()}, Calls: calls, GapMs: 50, CapMs: 30000, Filter: callsim.FilterPaths[(k+1)%4]})
+			Servers: []callsim.ServerSpec{mk(), mk()}, Calls: calls, GapMs: 50, CapMs: 30000, Filter: callsim.FilterPaths[(k+1)%4], Proxies: 1 + k%3})
 	}
 	return scs
 }
